@@ -307,7 +307,7 @@ def obligations(tier):
     NM = 1 if quick else 2
     menc = [(None, 'utf-8'), ('utf-16', 'utf-8'), (None, 'utf-32-be'), ('latin-1', 'utf-16'), (None, 'ascii')]
     if not quick:
-        menc = _enc_configs(cat)
+        menc = menc + [('utf-8-sig', 'latin-1'), (None, 'utf-16-be'), ('utf-32', 'utf-8')]
     obs.append(Ob('meta[symbolic]', ob_meta_sym, dict(encs=menc, N=NM), must_reach=['DiffXWriter.write_meta'],
                   path_timeout=30,
                   desc='metadata object with a symbolic string of 1..%d arbitrary code points and a symbolic integer, '
